@@ -176,29 +176,35 @@ func c11Case(r *core.Run, idx int, rng *rand.Rand) {
 		o.TimeFormat = timeLayouts[rng.Intn(len(timeLayouts))]
 	}
 	// issuer
+	// now and then the provider runs in insecure mode (WithAllowInsecure): static issuers may be http, derived ones are
+	scheme := "https://"
+	if rng.Intn(5) == 0 {
+		scheme, o.Insecure = "http://", true
+		r.Count("configurations_in_insecure_mode", 1)
+	}
 	issMode := []string{"static", "static_path", "static_slash", "host", "host_path", "forwarded"}[rng.Intn(6)]
 	var hosts []string
 	hdrFor := func(h string) map[string][]string { return nil }
 	issuerFor := func(h string) string { return "" }
 	switch issMode {
 	case "static":
-		o.Issuer = "https://idp-" + plainString(rng, 3) + ".example"
+		o.Issuer = scheme + "idp-" + plainString(rng, 3) + ".example"
 		if rng.Intn(3) == 0 {
-			o.Issuer = "https://xn--bcher-kva.idp--" + plainString(rng, 2) + ".example" // internationalised names contain "--"
+			o.Issuer = scheme + "xn--bcher-kva.idp--" + plainString(rng, 2) + ".example" // internationalised names contain "--"
 		}
 		hosts = []string{"whatever.example", "other.example"}
 		issuerFor = func(string) string { return o.Issuer }
 	case "static_path":
-		o.Issuer = "https://idp.example/saml/v" + plainString(rng, 2)
+		o.Issuer = scheme + "idp.example/saml/v" + plainString(rng, 2)
 		hosts = []string{"whatever.example"}
 		issuerFor = func(string) string { return o.Issuer }
 	case "static_slash":
-		o.Issuer = "https://idp.example/saml/"
+		o.Issuer = scheme + "idp.example/saml/"
 		hosts = []string{"whatever.example"}
 		issuerFor = func(string) string { return o.Issuer }
 	case "host":
 		hosts = []string{"a.idp.example", "b.idp.example:8443", "C.Example", "xn--mnchen-3ya.example"}
-		issuerFor = func(h string) string { return "https://" + h }
+		issuerFor = func(h string) string { return scheme + "" + h }
 	case "host_path":
 		o.HostPath = []string{"/saml", "saml/v2", "/x/"}[rng.Intn(3)]
 		hosts = []string{"a.idp.example", "b.idp.example:8443", "idp--staging.example"}
@@ -207,7 +213,7 @@ func c11Case(r *core.Run, idx int, rng *rand.Rand) {
 			if !strings.HasPrefix(p, "/") {
 				p = "/" + p
 			}
-			return "https://" + h + p
+			return scheme + "" + h + p
 		}
 	case "forwarded":
 		o.UseFwd = true
@@ -216,7 +222,7 @@ func c11Case(r *core.Run, idx int, rng *rand.Rand) {
 		hdrFor = func(h string) map[string][]string {
 			return map[string][]string{"Forwarded": {"for=192.0.2.1;host=" + h + ";proto=http"}}
 		}
-		issuerFor = func(h string) string { return "https://" + h + "/saml" }
+		issuerFor = func(h string) string { return scheme + "" + h + "/saml" }
 	}
 	e, err := env.New(o)
 	if err != nil {
